@@ -975,6 +975,19 @@ Lemma topo_rounds_step fuel g M0 rem0 done :
   end.
 Proof. reflexivity. Qed.
 
+Lemma app_split_cases {A} (d X l1 : list A) n l2 :
+  d ++ X = l1 ++ n :: l2 ->
+  (exists l2', d = l1 ++ n :: l2') \/ (exists a b, l1 = d ++ a /\ X = a ++ n :: b).
+Proof.
+  revert l1. induction d as [|x d IH]; intros l1 E.
+  - right. exists l1, l2. auto.
+  - destruct l1 as [|y l1]; simpl in E; injection E as E1 E.
+    + subst. left. exists d. reflexivity.
+    + subst y. destruct (IH l1 E) as [(l2' & ->)|(a & b & -> & Hb)].
+      * left. exists l2'. reflexivity.
+      * right. exists a, b. auto.
+Qed.
+
 Lemma topo_rounds_sound g :
   NoDup (names g) ->
   forall fuel rem done o,
@@ -997,13 +1010,7 @@ Proof.
     + rewrite <- Hperm, <- app_assoc. apply Permutation_app_head.
       unfold names. rewrite <- map_app. apply Permutation_map. apply Permutation_sym, partition_perm.
     + intros l1 n l2 E.
-      assert (Hcase : (exists l2', done = l1 ++ n :: l2') \/
-                      (exists a b, l1 = done ++ a /\ map m_name (filter ready rem) = a ++ n :: b)).
-      { clear - E. revert l1 E. induction done as [|d done IHd]; intros l1 E.
-        - right. exists l1, l2. auto.
-        - destruct l1 as [|x l1]; simpl in E; injection E as -> E.
-          + left. eauto.
-          + destruct (IHd l1 E) as [(l2' & ->)|(a & b & -> & Hb)]; [left; eauto | right; exists a, b; auto]. }
+      pose proof (app_split_cases _ _ _ _ _ E) as Hcase.
       destruct Hcase as [(l2' & Ed)|(a & b & El1 & Eab)].
       * apply (TP l1 n l2' Ed).
       * assert (Hn : In n (map m_name (filter ready rem))) by (rewrite Eab; apply in_app_iff; right; now left).
@@ -1022,3 +1029,116 @@ Proof.
     + intros Hn. now apply (Permutation_in _ (Permutation_sym P)).
   - intros l1 n l2 E. destruct l1; discriminate.
 Qed.
+
+(* ================================================================== 6. witnesses and examples *)
+
+Lemma in_b_In n e l : in_b n e l = true <-> In (n, e) l.
+Proof.
+  unfold in_b. rewrite existsb_exists. split.
+  - intros ([k v] & Hin & H). simpl in H. apply andb_true_iff in H as [H1 H2].
+    apply str_eqb_eq in H1. apply ent_eqb_eq in H2. now subst.
+  - intros H. exists (n, e). split; auto. simpl. rewrite str_eqb_refl. simpl. now apply ent_eqb_eq.
+Qed.
+Lemma refute_all_missing c g st M n e :
+  in_b n e (scope c g M) = true -> assoc_get n (snd (st_tabs st M)) <> Some e -> ~ tables_ok c g st M.
+Proof. intros H1 H2 [_ H]. apply H2, H. now apply in_b_In. Qed.
+Lemma refute_all_extra c g st M n e :
+  assoc_get n (snd (st_tabs st M)) = Some e -> in_b n e (scope c g M) = false -> ~ tables_ok c g st M.
+Proof. intros H1 H2 [_ H]. apply H in H1. apply in_b_In in H1. congruence. Qed.
+Lemma refute_pub_extra c g st M n e :
+  assoc_get n (fst (st_tabs st M)) = Some e -> in_b n e (accessible c g M) = false -> ~ tables_ok c g st M.
+Proof. intros H1 H2 [H _]. apply H in H1. apply in_b_In in H1. congruence. Qed.
+
+Definition mkD n k p : decl := {| d_name := s n; d_kind := k; d_perm := p |}.
+Definition mkU t o r : use_stmt := {| u_target := s t; u_only := o; u_renames := r |}.
+Definition mkM n p ds a us : module :=
+  {| m_name := s n; m_default := p; m_decls := ds; m_access := a; m_uses := us |}.
+
+Definition w_ma : module :=
+  mkM "ma" Public [mkD "foo" KVar Public; mkD "hid" KVar Private; mkD "ta1" KType Public;
+                   mkD "pa1" KProc Public; mkD "ga1" KGeneric Public; mkD "ga1s" KProc Private;
+                   mkD "ia1" KAbs Public; mkD "tp1" KType Private; mkD "wa1" KVar Protected] [] [].
+(* use ma, bar => foo *)
+Definition w_rename : graph := [w_ma; mkM "mb" Public [] [] [mkU "ma" None [(s "bar", s "foo")]]].
+(* use ma / use ma, only: bar => foo *)
+Definition w_across : graph :=
+  [w_ma; mkM "mb" Public [] [] [mkU "ma" None []; mkU "ma" (Some [(s "bar", s "foo")]) []]].
+(* module mb: use ma; private :: foo   module mc: use mb *)
+Definition w_private : graph :=
+  [w_ma; mkM "mb" Public [] [(s "foo", false)] [mkU "ma" None []]; mkM "mc" Public [] [] [mkU "mb" None []]].
+(* use ma, only: *)
+Definition w_only_empty : graph := [w_ma; mkM "mb" Public [] [] [mkU "ma" (Some []) []]].
+(* use ma, only: foo, bar => foo *)
+Definition w_only_dup : graph :=
+  [w_ma; mkM "mb" Public [] [] [mkU "ma" (Some [(s "foo", s "foo"); (s "bar", s "foo")]) []]].
+
+Definition regions_of (g : graph) := (region_rename g, region_private g, region_only_empty g, region_only_dup g).
+
+(* each witness: a legal program, a topological order, exactly one region, and a module whose
+   tables differ from the Spec *)
+Definition refuted_in (g : graph) (r : bool * bool * bool * bool) : Prop :=
+  exists o c M, wf_graph g = true /\ topo_b g o = true /\ In M g /\ regions_of g = r /\
+                ~ tables_ok c g (correlate_all c g o) M.
+
+Lemma refuted_rename : refuted_in w_rename (true, false, false, false).
+Proof.
+  exists [s "ma"; s "mb"], CVar, (nth 1 w_rename w_ma).
+  repeat split; try (vm_compute; reflexivity); [simpl; auto|].
+  apply (refute_all_missing _ _ _ _ (s "bar") (s "ma", s "foo")); vm_compute; [reflexivity | discriminate].
+Qed.
+Lemma refuted_across : refuted_in w_across (true, false, false, false).
+Proof.
+  exists [s "ma"; s "mb"], CVar, (nth 1 w_across w_ma).
+  repeat split; try (vm_compute; reflexivity); [simpl; auto|].
+  apply (refute_all_extra _ _ _ _ (s "foo") (s "ma", s "foo")); vm_compute; reflexivity.
+Qed.
+Lemma refuted_private : refuted_in w_private (false, true, false, false).
+Proof.
+  exists [s "ma"; s "mb"; s "mc"], CVar, (nth 2 w_private w_ma).
+  repeat split; try (vm_compute; reflexivity); [simpl; auto|].
+  apply (refute_all_extra _ _ _ _ (s "foo") (s "ma", s "foo")); vm_compute; reflexivity.
+Qed.
+Lemma refuted_only_empty : refuted_in w_only_empty (false, false, true, false).
+Proof.
+  exists [s "ma"; s "mb"], CType, (nth 1 w_only_empty w_ma).
+  repeat split; try (vm_compute; reflexivity); [simpl; auto|].
+  apply (refute_all_extra _ _ _ _ (s "ta1") (s "ma", s "ta1")); vm_compute; reflexivity.
+Qed.
+Lemma refuted_only_dup : refuted_in w_only_dup (false, false, false, true).
+Proof.
+  exists [s "ma"; s "mb"], CVar, (nth 1 w_only_dup w_ma).
+  repeat split; try (vm_compute; reflexivity); [simpl; auto|].
+  apply (refute_all_missing _ _ _ _ (s "foo") (s "ma", s "foo")); vm_compute; [reflexivity | discriminate].
+Qed.
+
+(* a diamond of re-export with ONLY, renames, a default-private module and an explicit PUBLIC *)
+Definition ex_g : graph :=
+  [w_ma;
+   mkM "mb" Private [mkD "vb1" KVar Public] [(s "tl", true)]
+       [mkU "ma" (Some [(s "foo", s "foo"); (s "tl", s "ta1")]) []];
+   mkM "mc" Public [mkD "pc1" KProc Public] [] [mkU "ma" None []; mkU "iso_fortran_env" None []];
+   mkM "md" Public [mkD "vd1" KVar Private] []
+       [mkU "mb" None []; mkU "mc" (Some [(s "pz", s "pa1"); (s "ia1", s "ia1")]) []]].
+Definition ex_o1 := [s "ma"; s "mb"; s "mc"; s "md"].
+Definition ex_o2 := [s "ma"; s "mc"; s "mb"; s "md"].
+
+Example ex_hypotheses :
+  wf_graph ex_g = true /\ no_region ex_g = true /\ no_self_use ex_g = true /\
+  topo_b ex_g ex_o1 = true /\ topo_b ex_g ex_o2 = true /\ ex_o1 <> ex_o2 /\
+  toposort ex_g = Some ex_o1 /\ NoDup (names ex_g).
+Proof.
+  repeat split; try (vm_compute; reflexivity); [discriminate|].
+  apply nodup_b_NoDup. vm_compute. reflexivity.
+Qed.
+(* the tables of md in the example are not trivial: tl comes from ma through the default-private
+   mb, pz is ma's pa1 through mc; the private hid and the not re-exported foo are absent *)
+Example ex_tables :
+  let st := fun c => st_tabs (correlate_all c ex_g ex_o2) (nth 3 ex_g w_ma) in
+  assoc_get (s "tl") (snd (st CType)) = Some (s "ma", s "ta1") /\
+  assoc_get (s "pz") (fst (st CProc)) = Some (s "ma", s "pa1") /\
+  assoc_get (s "vb1") (snd (st CVar)) = Some (s "mb", s "vb1") /\
+  assoc_get (s "foo") (snd (st CVar)) = None /\
+  assoc_get (s "hid") (snd (st CVar)) = None /\
+  assoc_get (s "vd1") (fst (st CVar)) = None /\
+  assoc_get (s "vd1") (snd (st CVar)) = Some (s "md", s "vd1").
+Proof. vm_compute. repeat split; reflexivity. Qed.
